@@ -72,13 +72,15 @@ def new (period : Nat) (_c : Candle α) : Res (CollapseTimeframe α) :=
   if period = 0 then .err .wrongMethodParameters
   else .ok { current := none, index := 0, period := period }
 
+/-- `current.take().map(|cur| cur + candle).or_else(|| Some(candle))` -/
+def accumulate (cur : Option (Candle α)) (c : Candle α) : Candle α :=
+  match cur with
+  | some x => x.add c
+  | none => c
+
 def next (s : CollapseTimeframe α) (c : Candle α) : Option (Candle α) × CollapseTimeframe α :=
-  let cur := match s.current with
-    | some x => some (x.add c)
-    | none => some c
-  let index := s.index + 1
-  if index = s.period then (cur, { s with current := none, index := 0 })
-  else (none, { s with current := cur, index := index })
+  if s.index + 1 = s.period then (some (accumulate s.current c), { s with current := none, index := 0 })
+  else (none, { s with current := some (accumulate s.current c), index := s.index + 1 })
 end CollapseTimeframe
 
 /-- batch `collapse_timeframe(size, continuous = false)`: non-overlapping windows of `size` -/
